@@ -113,6 +113,23 @@ Definition mentions_path (root : string) (p : list string) (t : pty) : bool :=
 Definition obs_path (c : tg_case) (id : N) : option tokens :=
   match nth_error (tg_paths c) (N.to_nat id) with Some (OOk t) => Some t | _ => None end.
 
+(** every token equal to a source parameter name that stands alone (not a segment of a longer
+    path, no generic arguments of its own) is replaced by the corresponding resolved argument;
+    every other token is unchanged *)
+Fixpoint subst_spec (names : list (string * tokens)) (prev : string) (toks : tokens) : tokens :=
+  match toks with
+  | [] => []
+  | t :: r =>
+      let next := hd "" r in
+      match assoc_str names t with
+      | Some repl =>
+          if String.eqb prev ":" || String.eqb next "<" || String.eqb next ":"
+          then t :: subst_spec names t r
+          else repl ++ subst_spec names t r
+      | None => t :: subst_spec names t r
+      end
+  end.
+
 Definition prop_subst (c : tg_case) : bool :=
   let r := tg_reg c in
   let s := settings_of (tg_spec c) in
@@ -151,7 +168,19 @@ Definition prop_subst (c : tg_case) : bool :=
                                                | _ => ["<"] ++ sep_by [","] argt ++ [">"]
                                                end)
                                else true
-                           | Specified _ => true
+                           | Specified m =>
+                               (* token-level specification of the parameter mapping, written
+                                  independently of [replace_spath]: a bare occurrence of a source
+                                  parameter name is replaced by the observed resolved argument *)
+                               let args := map (obs_path c) (param_ids t) in
+                               if forallb (fun a => match a with Some _ => true | None => false end) args then
+                                 let names := flat_map (fun ni : string * nat =>
+                                                          match nth_error args (snd ni) with
+                                                          | Some (Some a) => [(fst ni, a)]
+                                                          | _ => []
+                                                          end) m in
+                                 tokens_eqb o (subst_spec names "" (print_spath (su_path sub)))
+                               else true
                            end
                        | _, _ => true
                        end
@@ -159,6 +188,37 @@ Definition prop_subst (c : tg_case) : bool :=
       end
   | _ => true
   end.
+
+(** finding F5: a source parameter name inside a NON-path type argument of the target
+    (tuple, array, reference ...) is not replaced (substitutes.rs:289-303) *)
+Fixpoint nonpath_mentions (names : list string) (t : gtype) : bool :=
+  match t with
+  | GTPath _ _ segs =>
+      (fix go (l : list (string * pargs)) : bool :=
+         match l with
+         | [] => false
+         | (_, a) :: l' =>
+             match a with
+             | AAngle args =>
+                 (fix go2 (gs : list garg) : bool :=
+                    match gs with
+                    | [] => false
+                    | GType u :: gs' => nonpath_mentions names u || go2 gs'
+                    | GOther toks :: gs' => existsb (fun n => existsb (String.eqb n) toks) names || go2 gs'
+                    end) args
+             | _ => false
+             end || go l'
+         end) segs
+  | GTOther toks => existsb (fun n => existsb (String.eqb n) toks) names
+  end.
+
+Definition known_F5 (c : tg_case) : bool :=
+  existsb (fun kv : list string * substitute =>
+             match su_map (snd kv) with
+             | Specified m => nonpath_mentions (map fst m)
+                                (GTPath false (sp_leading (su_path (snd kv))) (sp_segs (su_path (snd kv))))
+             | PassThrough => false
+             end) (s_subs (settings_of (tg_spec c))).
 
 Definition hyp_has_subst (c : tg_case) : bool :=
   existsb (fun e => subs_contains (s_subs (settings_of (tg_spec c))) (t_path (snd e)) &&
